@@ -186,6 +186,42 @@ pub fn check_scc<F: Fl>(c: &CCase) -> Result<String, (String, String)> {
         let code = if split { "scc/component-split" } else { "scc/components-merged" };
         return Err((code.into(), detail("the partition differs")));
     }
+    // the same nodes held by further containers: another container with all
+    // members (other hash seed, reversed insertion order) and one with the
+    // weakly connected component of n0 only (closed under neighbours, as the
+    // property requires); scc() on each, then on the first one again
+    {
+        let rev: Vec<K> = c.insertion.iter().rev().cloned().collect();
+        let g2 = container::<F>(&w, &rev, c.seed.wrapping_add(17));
+        let mut comp: BTreeSet<K> = BTreeSet::new();
+        comp.insert(0);
+        loop {
+            let before = comp.len();
+            for (u, v) in &c.conns {
+                if comp.contains(u) || comp.contains(v) {
+                    comp.insert(*u);
+                    comp.insert(*v);
+                }
+            }
+            if comp.len() == before {
+                break;
+            }
+        }
+        let comp_order: Vec<K> = c.insertion.iter().filter(|k| comp.contains(k)).cloned().collect();
+        let g3 = container::<F>(&w, &comp_order, c.seed.wrapping_add(5));
+        let exp3: BTreeSet<BTreeSet<K>> = exp.iter().filter(|b| b.iter().all(|k| comp.contains(k))).cloned().collect();
+        for (label, gx, ex, members) in [("a second container holding the same nodes", &g2, &exp, c.n), ("a container holding only the nodes connected with n0", &g3, &exp3, comp.len()), ("the first container again", &g, &exp, c.n)] {
+            let r = match guarded(|| F::g_scc(gx).expect("directed flavour")) {
+                Ok(r) => r,
+                Err(f) => return Err((format!("scc-shared-nodes/{}", f.kind()), format!("{}: scc() on {} did not return: {}", c.program(F::NAME), label, f.msg()))),
+            };
+            let gotx: BTreeSet<BTreeSet<K>> = r.iter().map(|b| b.iter().map(F::key).collect()).collect();
+            let total: usize = r.iter().map(|b| b.len()).sum();
+            if gotx != *ex || total != members {
+                return Err(("scc-shared-nodes/partition".into(), format!("{}: after scc() on the first container, scc() on {} = {:?}; its strongly connected components are {:?}", c.program(F::NAME), label, r.iter().map(|b| b.iter().map(F::key).collect::<Vec<K>>()).collect::<Vec<_>>(), ex)));
+            }
+        }
+    }
     if !c.then.is_empty() {
         // the edges change through the node handles, the container is the same object
         for op in &c.then {
